@@ -56,9 +56,12 @@ POSASSIGN = {
                     "overlap": (["3M", "*"], ["3Q"])},
     ("E", "gfa2"): {"alignment": (["*", "3M", "1,2", {"__t": "cigar", "v": "2M1D", "version": "gfa2"}],
                                   ["3Q", "M", {"__t": "cigar", "v": "4S", "version": "gfa1"},
-                                   {"__t": "cigar", "v": "2M1N", "version": "gfa1"}]),
+                                   {"__t": "cigar", "v": "2M1N", "version": "gfa1"}, {"__t": "oline"}, {"__t": "lastpos"}]),
                     "beg1": ([0, "0"], ["x", "$", {"__t": "bool", "v": False}])},
-    ("P", "gfa1"): {"overlaps": (["*", {"__t": "placeholder"}, {"__t": "alnplaceholder"}], ["3Q", "4M,,4M"]),
+    ("#", "gfa1"): {"content": (["hello", "a b"], [5, {"__t": "emptylist"}]), "spacer": ([" ", ""], [0])},
+    ("#", "gfa2"): {"content": (["hello", "a b"], [5, {"__t": "emptylist"}]), "spacer": ([" ", ""], [0])},
+    ("P", "gfa1"): {"overlaps": (["*", {"__t": "placeholder"}, {"__t": "alnplaceholder"}],
+                                 ["3Q", "4M,,4M", {"__t": "emptylist"}, {"__t": "tracelist"}]),
                     "segment_names": (["nn1+,nn2-"], [{"__t": "emptylist"}, "a+,+,b+", "a+,=b+"])},
 }
 
@@ -79,6 +82,12 @@ def pyval(v):
             return gfapy.AlignmentPlaceholder()
         if t == "emptylist":
             return []
+        if t == "tracelist":
+            return [gfapy.Trace([1])]
+        if t == "oline":
+            return gfapy.OrientedLine("a", "+")
+        if t == "lastpos":
+            return gfapy.LastPos(1)
     return pv(v)
 
 
